@@ -124,7 +124,8 @@ def run_case(case):
     for i, (ai, qty, price, comm) in enumerate(fills):
         a = names[ai if driver != 'position' else 0]
         t = T0 + pd.Timedelta(minutes=i)
-        txn = q.Transaction(a, qty, t, price, 'o%d' % i, commission=comm)
+        oid = ('o%d' % (i // 3)) if case.get('repeat_order_ids') else 'o%d' % i      # partial fills share an order id
+        txn = q.Transaction(a, qty, t, price, oid, commission=comm)
         ep = eps.setdefault(a, Episode())
         if driver == 'position':
             if pos is None:
@@ -208,6 +209,10 @@ def run_case(case):
     cls.add(driver)
     if case.get('fractional'):
         cls.add('fractional_quantities')
+    if case.get('repeat_order_ids'):
+        cls.add('fills_sharing_order_ids')
+    if any(abs(f[1]) >= 100000 for f in fills):
+        cls.add('six_figure_quantities')
     cls.add('k_%d' % min(len(fills), 7))
     if len(sides) == 2:
         cls.add('both_sides')
@@ -261,16 +266,21 @@ def ladders(draw):
     net = [0] * na
     fills, marks = [], []
     frac = draw(st.sampled_from([False, False, False, True]))      # non-integer quantities of at least one unit
+    big = (not frac) and draw(st.sampled_from([False, False, False, True]))     # six-figure quantities
     comm = st.one_of(st.just(0.0), st.floats(0, 50).map(lambda x: round(x, 4)), st.sampled_from([0.01, 1.0]))
     if draw(st.sampled_from([False, False, False, True])):      # rebates: the accounting is linear in the commission
         comm = st.one_of(comm, st.sampled_from([-0.5, -2.0, -0.01]))
     for i in range(n):
         a = draw(st.integers(0, na - 1))
-        mode = draw(st.sampled_from(['any', 'any', 'any', 'close', 'flip', 'reduce']))
+        mode = draw(st.sampled_from(['any', 'any', 'any', 'close', 'flip', 'reduce'] + (['leave_one', 'leave_one'] if big else [])))
         mag = draw(st.one_of(gen.small_qty, st.integers(1, 1000)))
+        if big:
+            mag = draw(st.one_of(st.integers(100000, 2000000), st.just(150000)))
         if frac:
             mag = draw(st.sampled_from([1.5, 2.5, 4.25, 10.75, 1.0, 3.0, 100.5]))
-        if mode == 'close' and net[a] != 0:
+        if mode == 'leave_one' and abs(net[a]) > 1:
+            qty = -(net[a] - (1 if net[a] > 0 else -1))          # huge turnover, one share left
+        elif mode == 'close' and net[a] != 0:
             qty = -net[a]
         elif mode == 'flip' and net[a] != 0:
             qty = -net[a] - (mag if net[a] > 0 else -mag)
@@ -285,6 +295,7 @@ def ladders(draw):
         if draw(st.sampled_from([True, False, False])):
             marks.append([i, draw(st.integers(0, na - 1)), draw(gen.prices)])
     return {'driver': driver, 'fills': fills, 'marks': marks, 'fractional': frac,
+            'repeat_order_ids': draw(st.sampled_from([False, False, True])),
             'marks_without_dt': driver != 'portfolio' and draw(st.booleans())}
 
 
